@@ -70,6 +70,12 @@ def compare(c, dump):
         else:
             for ga, wa in zip([a for a in g["attrs"] if a["kind"] == "explicit"], e["attrs"]):
                 flags(wa["ty"], ga.get("ty"), "%s.%s" % (e["name"], wa["name"]), out)
+        # redeclared attributes: the dictionary lists them with the entity that redeclares them, under the inherited
+        # name (the generator may spell it qualified: SELF\\e2.b1) and with the new type
+        gr = [(a["name"].lower().split(".")[-1], norm(a["type"])) for a in g["attrs"] if a["kind"] == "redefining"]
+        wr = [(a["name"].lower(), ty_text(a["ty"])) for a in e.get("redeclared", [])]
+        if gr != wr:
+            out.append(("redeclared-attrs", "%s: redeclared attributes %s, declared %s" % (e["name"], [(a["name"], a["kind"], a["type"]) for a in g["attrs"] if a["kind"] not in ("explicit", "derived")], wr)))
         gd = [(a["name"].lower(), norm(a["type"])) for a in g["attrs"] if a["kind"] == "derived"]
         wd = [(a["name"].lower(), ty_text(a["ty"])) for a in e["derived"]]
         if gd != wd:
